@@ -477,6 +477,7 @@ fn stabilise(w: &mut W) {
 }
 
 pub fn run(bytes: &[u8], tier: Tier) -> Outcome {
+    crate::engine::set_engine_hash_seed(bytes);
     let mut ch = Choices::new(bytes);
     let canary = Rc::new(());
     let mut w = W {
@@ -587,6 +588,7 @@ pub fn run(bytes: &[u8], tier: Tier) -> Outcome {
 /// Same history, but all handles are dropped while the state lives, then exactly one stabilise:
 /// everything must be gone before the state is.
 pub fn run_one_stabilise(bytes: &[u8], tier: Tier) -> Outcome {
+    crate::engine::set_engine_hash_seed(bytes);
     let mut ch = Choices::new(bytes);
     let canary = Rc::new(());
     let mut w = W {
